@@ -673,12 +673,26 @@ func (f *frame) invokeIface(n *node, recv Val, m *types.Func, args []Val, in *ss
 			return v
 		}
 		sig := m.Type().(*types.Signature)
+		var res Val
+		var results []Val
 		if sig.Results().Len() == 1 {
-			return mk(sig.Results().At(0).Type(), 0)
+			res = mk(sig.Results().At(0).Type(), 0)
+			results = []Val{res}
+		} else {
+			res = Val{T: sig.Results()}
+			for k := 0; k < sig.Results().Len(); k++ {
+				res.Sub = append(res.Sub, mk(sig.Results().At(k).Type(), k))
+			}
+			results = res.Sub
 		}
-		res := Val{T: sig.Results()}
-		for k := 0; k < sig.Results().Len(); k++ {
-			res.Sub = append(res.Sub, mk(sig.Results().At(k).Type(), k))
+		// the interface contract's postconditions hold for the observed values
+		if len(c.Ensures) > 0 && !f.spec && !x.inSpec() {
+			pre := n.heap.clone()
+			all := append([]Val{recv}, args...)
+			for _, e := range c.Ensures {
+				t := x.evalClause(f, e, n.heap, pre, all, results, nil)
+				x.g.Assume(implies(n.reach, t))
+			}
 		}
 		return res
 	}
@@ -922,10 +936,6 @@ func (f *frame) opaqueCall(n *node, callee *ssa.Function, args []Val) (Val, bool
 		return Val{}, false // use the definition directly
 	}
 	rt := resultType(callee.Signature)
-	rc := x.comps(rt)
-	if len(rc) != 1 {
-		unsup("opaque function %s must return a scalar", callee.Name())
-	}
 	var terms, sorts []string
 	for i, a := range args {
 		switch u := callee.Params[i].Type().Underlying().(type) {
@@ -956,13 +966,32 @@ func (f *frame) opaqueCall(n *node, callee *ssa.Function, args []Val) (Val, bool
 			unsup("opaque function %s: parameter of type %s", callee.Name(), callee.Params[i].Type())
 		}
 	}
-	fn := g.Fun("spec:"+callee.Name(), sorts, rc[0].sort)
-	t := g.Fresh(rc[0].sort, "("+fn+" "+strings.Join(terms, " ")+")")
-	res := Val{T: rt, C: []string{t}}
+	mk := func(t types.Type, k int) Val {
+		v := Val{T: t}
+		for ci, cc := range x.comps(t) {
+			fn := g.Fun(fmt.Sprintf("spec:%s#%d.%d", callee.Name(), k, ci), sorts, cc.sort)
+			v.C = append(v.C, g.Fresh(cc.sort, "("+fn+" "+strings.Join(terms, " ")+")"))
+		}
+		if !g.InQuant() {
+			x.assumeWellFormed(v, "true")
+		}
+		return v
+	}
+	var res Val
+	if tup, ok := rt.(*types.Tuple); ok {
+		res = Val{T: rt}
+		for k := 0; k < tup.Len(); k++ {
+			res.Sub = append(res.Sub, mk(tup.At(k).Type(), k))
+		}
+	} else {
+		res = mk(rt, 0)
+	}
 	if revealed {
 		def, ok := f.inline(n, callee, args, nil, true, nil)
-		if ok && len(def.C) == 1 {
-			g.Assume(eq(t, def.C[0]))
+		if ok && len(def.C) == len(res.C) && len(def.Sub) == 0 {
+			for i := range def.C {
+				g.Assume(eq(res.C[i], def.C[i]))
+			}
 		}
 	}
 	return res, true
@@ -978,7 +1007,7 @@ func (f *frame) atCallAssertions(n *node, in *ssa.Call, callee *ssa.Function, ar
 	}
 	id := funcID(callee)
 	for _, cl := range x.ctr.AtCalls {
-		if cl.Callee != id {
+		if cl.Callee != id && cl.Callee != fullName(callee) {
 			continue
 		}
 		fn := x.w.ClauseFn[cl.GoFunc]
